@@ -14,11 +14,15 @@ Tie: `sheet` correspondence (operation histories: result, rule list with prefix/
 correspondence (items with their namespace for every prefix form, declared or not), `nsform`
 correspondence (written form of every stored pair under the mapping after every operation).
 
-Partial: that every *reachable* sheet keeps all used URIs declared (so that `Expressible` holds for every
-stored URI pair) is decided by the history oracle, not proved; `del namespaces[p]` is covered by the
-correspondence and the oracle only.  Two recorded findings: `none_pair_finding`, `attr_default_finding`.
+Reachable states (section `reachable`, lemmas in `Proofs/UsedDeclared.lean`): every sheet reachable by any
+history of operations whose payloads use declared URIs only (`OpDeclared`, the caller's side of the API)
+has only effective @namespace rules (`NsClean`) and keeps every used URI declared (`UsedDeclared`), so
+`Expressible` holds for every type selector bound to a URI; `del namespaces[p]` is specified by `nsDel_spec`
+(on sheets whose @namespace rules lead the list; `nsDel_wrong_rule` records what the code does otherwise).
+Two recorded findings: `none_pair_finding`, `attr_default_finding`.
 -/
 import CssVerif.Proofs.Namespaces
+import CssVerif.Proofs.UsedDeclared
 import CssVerif.Gen.Productions
 namespace CssVerif.C15
 open CssVerif
@@ -137,4 +141,166 @@ example : view exSheet = [(2, 1), (0, 3)] ∧ dictHasVal (view exSheet) 1 = true
     serForm (view exSheet) (.uri 1) = .named 2 ∧ serForm (view exSheet) (.uri 3) = .bare := by decide
 
 end sheet
+
+section reachable
+open CssVerif.Sheet
+
+/-! ### every reachable sheet keeps its used URIs declared
+
+`UsedDeclared s`: every URI a selector of a style / @media rule of `s` is bound to is a value of
+`sheet.namespaces`.  The model fills `Rule.used` with real URIs only (`|a`, `*|a` and unprefixed names
+without a default namespace contribute nothing), so no URI stands for "no namespace".
+`NsClean s`: every @namespace rule of `s` is effective.  `NsInv s` is the conjunction. -/
+
+/-- the rule-by-rule reading of `UsedDeclared` -/
+theorem used_declared_iff (s : Sheet) :
+    UsedDeclared s ↔ ∀ r ∈ s, isStyled r = true → ∀ u ∈ r.used, dictHasVal (view s) u = true := by
+  constructor
+  · intro h r hr hs u hu; exact h u (mem_usedURIs.2 ⟨r, hr, hs, hu⟩)
+  · intro h u hu
+    obtain ⟨r, hr, hs, hru⟩ := mem_usedURIs.1 hu
+    exact h r hr hs u hru
+
+/-- (a) the empty sheet -/
+theorem ns_inv_init : NsInv [] := nsInv_nil
+
+/-- (a) every operation — insertRule with any index / in order, deleteRule with any (also negative) index,
+encoding, `namespaces[p] = u`, `del namespaces[p]`, `cssText = …` — keeps the invariant, accepted or refused,
+provided the caller's payload uses declared URIs only (`OpDeclared`) -/
+theorem ns_inv_step (s : Sheet) (op : Op) (h : NsInv s) (hd : OpDeclared true s op) :
+    NsInv (Sheet.step true s op).1 := step_inv true s op h hd
+
+/-- the operations that carry no selectors need no hypothesis at all -/
+theorem ns_inv_step_free (s : Sheet) (h : NsInv s) :
+    (∀ i, NsInv (Sheet.step true s (.delete i)).1) ∧ (∀ e, NsInv (Sheet.step true s (.encoding e)).1) ∧
+    (∀ p u, NsInv (Sheet.step true s (.nsSet p u)).1) ∧ (∀ p, NsInv (Sheet.step true s (.nsDel p)).1) ∧
+    (∀ r i o, isStyled r = false → NsInv (Sheet.step true s (.insert r i o)).1) :=
+  ⟨fun i => step_inv true s (.delete i) h trivial, fun e => step_inv true s (.encoding e) h trivial,
+   fun p u => step_inv true s (.nsSet p u) h trivial, fun p => step_inv true s (.nsDel p) h trivial,
+   fun r i o hr => step_inv true s (.insert r i o) h (fun hs => by rw [hr] at hs; cases hs)⟩
+
+/-- `OpDeclared` is about the caller, not a defect: the model (like `insertRule` with a ready-made rule
+object) stores whatever selectors it is handed; a style rule bound to an undeclared URI breaks the
+invariant at once, and so does an assigned text whose style rule uses a URI its @namespace rules do not
+declare -/
+theorem op_declared_needed :
+    (¬ OpDeclared true [] (.insert { kind := .style, used := [1] } none false) ∧
+      ¬ UsedDeclared (Sheet.step true [] (.insert { kind := .style, used := [1] } none false)).1) ∧
+    (¬ OpDeclared true [] (.assign [{ kind := .namespace, p := 1, u := 2 }, { kind := .style, used := [1] }]) ∧
+      ¬ UsedDeclared (Sheet.step true []
+        (.assign [{ kind := .namespace, p := 1, u := 2 }, { kind := .style, used := [1] }])).1) := by decide
+
+/-- a text-only sufficient form of the hypothesis for `cssText = …`: every URI used by a style / @media
+statement of the text is declared by the @namespace rules the parse keeps -/
+theorem assign_declared_of_text (s : Sheet) (rs : List Rule)
+    (h : ∀ u ∈ usedURIs rs, dictHasVal (view (parseLoop true rs 0 [] true).1) u = true) :
+    OpDeclared true s (.assign rs) := Sheet.assign_declared_of_text true rs h
+
+/-- (b) `UsedDeclared` alone is not inductive: on a sheet holding an ineffective @namespace rule
+(`@namespace p "u1"` shadowed by `@namespace p "u2"`, URI u1 kept alive by `@namespace q "u1"`)
+`deleteRule(2)` is allowed (u1 has two rules) and leaves u1 in use but without a prefix.  Such a sheet is
+not reachable (`reachable_ns_clean`): every accepted @namespace insertion and every parse end with a
+complete `_cleanNamespaces` -/
+theorem used_declared_not_inductive :
+    let s : Sheet := [{ kind := .namespace, p := 1, u := 1 }, { kind := .namespace, p := 1, u := 2 },
+      { kind := .namespace, p := 2, u := 1 }, { kind := .style, used := [1] }]
+    UsedDeclared s ∧ ¬ NsClean s ∧ (Sheet.step true s (.delete 2)).2 = .none ∧
+      ¬ UsedDeclared (Sheet.step true s (.delete 2)).1 := by decide
+
+/-- (b) the candidates, on the smallest sheet with a namespace in use: re-declaring the prefix with
+another URI, shadowing it by an in-order or indexed @namespace insertion, `del namespaces[p]` and
+`deleteRule(-2)` are all refused and leave the sheet as it was -/
+theorem in_use_candidates_refused :
+    let s : Sheet := [{ kind := .namespace, p := 1, u := 1 }, { kind := .style, used := [1] }]
+    Sheet.step true s (.nsSet 1 2) = (s, .raised .noModification) ∧
+    Sheet.step true s (.insert { kind := .namespace, p := 1, u := 2 } none true) = (s, .raised .noModification) ∧
+    Sheet.step true s (.insert { kind := .namespace, p := 1, u := 2 } (some 1) false) = (s, .raised .noModification) ∧
+    Sheet.step true s (.nsDel 1) = (s, .raised .noModification) ∧
+    Sheet.step true s (.delete (-2)) = (s, .raised .noModification) := by decide
+
+/-- (c) every sheet reachable by a history whose payloads use declared URIs only has only effective
+@namespace rules … -/
+theorem reachable_ns_clean (ops : List Op) (hd : HistDeclared true [] ops) :
+    NsClean (ops.foldl (fun s op => (Sheet.step true s op).1) []) := (run_inv true ops [] nsInv_nil hd).1
+
+/-- … and keeps every URI a selector is bound to declared -/
+theorem reachable_used_declared (ops : List Op) (hd : HistDeclared true [] ops) :
+    UsedDeclared (ops.foldl (fun s op => (Sheet.step true s op).1) []) := (run_inv true ops [] nsInv_nil hd).2
+
+/-- so in every such sheet each used URI has a prefix that denotes it, the serialiser picks such a prefix,
+the pair is `Expressible` for a type selector, and serialise → re-parse gives the same pair back -/
+theorem reachable_expressible (ops : List Op) (hd : HistDeclared true [] ops) :
+    let s := ops.foldl (fun s op => (Sheet.step true s op).1) []
+    ∀ u ∈ usedURIs s,
+      (∃ p, dictGet (view s) p = some u ∧ prefixFor (view s) u = some p) ∧
+      Expressible (view s) false (.uri u) ∧
+      resolveForm (view s) false (serForm (view s) (.uri u)) = some (.uri u) := by
+  intro s u hu
+  have hval := reachable_used_declared ops hd u hu
+  obtain ⟨p, hp, hg⟩ := prefix_roundtrip (view s) (view_ok s) u hval
+  have he : Expressible (view s) false (.uri u) := ⟨hval, fun h => by cases h⟩
+  exact ⟨⟨p, hg, hp⟩, he, reparse_pair (view s) (view_ok s) false (.uri u) he⟩
+
+/-- non-vacuity: a history through every kind of operation, accepted and refused ones (a namespace in use
+re-declared, shadowed, deleted; a text assigned), meets the hypothesis; its last sheet holds two used URIs -/
+def exHistory : List Op :=
+  [.nsSet 1 1, .nsSet 0 2, .insert { kind := .style, used := [1, 2] } none false, .nsSet 2 1, .nsDel 0,
+   .insert { kind := .namespace, p := 2, u := 2 } none true,
+   .insert { kind := .namespace, p := 2, u := 2 } (some 0) false, .delete (-1), .nsDel 0,
+   .insert { kind := .import } none true, .encoding (some 7),
+   .insert { kind := .media, used := [1] } none true, .delete 2,
+   .assign [{ kind := .namespace, p := 1, u := 1 }, { kind := .namespace, p := 2, u := 1 },
+     { kind := .namespace, p := 0, u := 3 }, { kind := .style, used := [1, 3] }],
+   .nsSet 0 1, .nsSet 5 3]
+
+example : HistDeclared true [] exHistory ∧
+    exHistory.foldl (fun s op => (Sheet.step true s op).1) [] =
+      [{ kind := .namespace, p := 2, u := 1 }, { kind := .namespace, p := 5, u := 3 },
+       { kind := .style, used := [1, 3] }] := by decide
+
+/-! ### `del namespaces[p]` -/
+
+/-- what the model does for `del namespaces[p]` on a sheet with only effective @namespace rules (every
+reachable sheet) whose @namespace rules lead the list: an undeclared prefix raises NamespaceErr; a prefix
+whose URI is in use (and has this one rule) raises NoModificationAllowedErr and nothing changes; otherwise
+exactly the @namespace rule of `p` goes, `p` is no longer bound (unless a duplicate rule remains) and every
+other prefix keeps its URI -/
+theorem nsDel_spec (s : Sheet) (p : Nat) (hc : NsClean s) (hl : nsLead s = true) :
+    (dictGet (view s) p = none → nsDel s p = (s, .raised .namespaceErr)) ∧
+    (∀ u, dictGet (view s) p = some u →
+      if u ∈ usedURIs s ∧ nsCount s u = 1 then nsDel s p = (s, .raised .noModification)
+      else (∃ i r, s[i]? = some r ∧ r.kind = .namespace ∧ r.p = p ∧ r.u = u ∧
+              nsDel s p = (s.eraseIdx i, .none)) ∧
+           (nsCount s u = 1 → dictGet (view (nsDel s p).1) p = none) ∧
+           (∀ q, q ≠ p → dictGet (view (nsDel s p).1) q = dictGet (view s) q)) :=
+  ⟨fun h => nsDel_undeclared s p hc h, fun u h => nsDel_declared s p u hc hl h⟩
+
+/-- wherever the @namespace rules stand, `del namespaces[p]` keeps the invariant (it is a `deleteRule`) -/
+theorem nsDel_keeps_inv (s : Sheet) (p : Nat) (h : NsInv s) : NsInv (nsDel s p).1 := nsDel_inv s p h.1 h.2
+
+/-- why `nsLead` is there: `__delitem__` passes the position *among the @namespace rules* to `deleteRule`.
+Behind an @import, `del namespaces['q']` removes `@namespace p` instead (although `p`'s URI could be
+protected and `q`'s is not looked at); behind an @charset it removes the @charset rule.  (Noted in DESIGN
+as an observation outside the properties; the used-URI invariant survives, see `nsDel_keeps_inv`.) -/
+theorem nsDel_wrong_rule :
+    nsDel [{ kind := .import }, { kind := .namespace, p := 1, u := 1 }, { kind := .namespace, p := 2, u := 2 },
+        { kind := .style, used := [2] }] 2 =
+      ([{ kind := .import }, { kind := .namespace, p := 2, u := 2 }, { kind := .style, used := [2] }], .none) ∧
+    nsDel [{ kind := .import }, { kind := .namespace, p := 1, u := 1 }, { kind := .namespace, p := 2, u := 2 },
+        { kind := .style, used := [1] }] 2 =
+      ([{ kind := .import }, { kind := .namespace, p := 1, u := 1 }, { kind := .namespace, p := 2, u := 2 },
+        { kind := .style, used := [1] }], .raised .noModification) ∧
+    nsDel [{ kind := .charset, p := 7 }, { kind := .namespace, p := 2, u := 1 }, { kind := .media, used := [1] }] 2 =
+      ([{ kind := .namespace, p := 2, u := 1 }, { kind := .media, used := [1] }], .none) := by decide
+
+/-- non-vacuity of `nsDel_spec`: the three outcomes on a clean, @namespace-first sheet -/
+example :
+    let s : Sheet := [{ kind := .namespace, p := 0, u := 3 }, { kind := .namespace, p := 2, u := 1 },
+      { kind := .style, used := [1] }]
+    NsClean s ∧ nsLead s = true ∧
+    nsDel s 1 = (s, .raised .namespaceErr) ∧ nsDel s 2 = (s, .raised .noModification) ∧
+    nsDel s 0 = ([{ kind := .namespace, p := 2, u := 1 }, { kind := .style, used := [1] }], .none) ∧
+    view (nsDel s 0).1 = [(2, 1)] := by decide
+
+end reachable
 end CssVerif.C15
